@@ -30,9 +30,10 @@
 (* and  #grants in [s, x) <= #{admitted k : a_k >= s /\ b_k <= a_q},        *)
 (* rate*(x - s) >= rate*(b_q - s), so the minimum over s in {a_k} of       *)
 (*      burst + rate*max(0, b_q - a_k) - #{admitted k' : a_k' >= a_k /\ b_k' <= a_q}  *)
-(* is a lower bound (rate term rounded down).  From the tenant's bound one *)
-(* token is taken off for every other caller thread of that tenant: a      *)
-(* concurrent call that is being refused may hold a token for a moment.    *)
+(* is a lower bound (rate term rounded down).  Nothing else uses a budget:  *)
+(* a call refused by the global limit leaves the tenant's budget as it     *)
+(* was, and concurrent callers cannot see it in between (RateLimit.tla:    *)
+(* RefundNeutral, NoTransientWithhold).                                    *)
 (***************************************************************************)
 EXTENDS Integers, Sequences, FiniteSets, TLC, Json, IOUtils, SequencesExt
 
@@ -94,10 +95,6 @@ CertainlyLeft(rs, burst, rate, q) ==
 -----------------------------------------------------------------------------
 OfTenant(s, t) == SelectSeq(s, LAMBDA x : x[1] = t)
 
-\* tokens a tenant can be over its bound because of the callers that are being refused by the global
-\* limit while holding a tenant token (one per other caller thread of that tenant); 0 without a global limit
-HoldMilli(r, t) == IF r.grate > 0 /\ r.conc[t] >= 2 THEN 1000 * (r.conc[t] - 1) ELSE 0
-
 Judge(r) ==
   LET adm == r.adm
       wf  == /\ WellFormed(adm) /\ WellFormed(r.ref)
@@ -110,17 +107,14 @@ Judge(r) ==
          rper == [t \in 1..r.nt |-> Reverse(per[t])]
          upT == [t \in 1..r.nt |->
                    LET u == Upper(per[t], r.burst[t], r.rate[t])
-                   IN [b |-> t, n |-> Len(per[t]), ex |-> u[1], at |-> u[2],
-                       strict  |-> u[1] > SlackMilli,                       \* the property as stated
-                       lenient |-> u[1] > SlackMilli + HoldMilli(r, t)]]     \* beyond the known hold excess
+                   IN [b |-> t, n |-> Len(per[t]), ex |-> u[1], at |-> u[2], bad |-> u[1] > SlackMilli]]
          upG == IF r.grate > 0
                 THEN LET u == Upper(adm, r.gburst, r.grate)
-                     IN <<[b |-> 0, n |-> Len(adm), ex |-> u[1], at |-> u[2],
-                           strict |-> u[1] > SlackMilli, lenient |-> u[1] > SlackMilli]>>
+                     IN <<[b |-> 0, n |-> Len(adm), ex |-> u[1], at |-> u[2], bad |-> u[1] > SlackMilli]>>
                 ELSE <<>>
          need == 1000 + LowerSlackMilli
          unjust(q) == LET t == q[1]
-                      IN /\ CertainlyLeft(rper[t], r.burst[t], r.rate[t], q) - 1000 * (r.conc[t] - 1) >= need
+                      IN /\ CertainlyLeft(rper[t], r.burst[t], r.rate[t], q) >= need
                          /\ (r.grate > 0 => CertainlyLeft(radm, r.gburst, r.grate, q) >= need)
          low == SelectSeq([k \in 1..Len(r.ref) |-> IF unjust(r.ref[k]) THEN k ELSE 0], LAMBDA k : k > 0)
      IN [run |-> r.run, wf |-> TRUE, up |-> upT \o upG, low |-> low, nref |-> Len(r.ref)]
